@@ -394,3 +394,13 @@ def r3(ctx):
         yield PASS("C13-R3", "into_request_bytes/infallible", "built-in IntoRequestBytes impls construct no Err (%d bodies)" % n, [])
     else:
         yield MISSING("C13-R3", "into_request_bytes/floor", "expected the 3 built-in IntoRequestBytes impls, found %d bodies" % n)
+
+
+import c03  # noqa: E402
+
+
+@M.rule("C13-R2b", "rule 12 decides exactly `parts != 5` before the scope rule (shared with C03-R1)")
+def r2b(ctx):
+    for r in c03.r1(ctx):
+        r.rule = "C13-R2b"
+        yield r
